@@ -133,6 +133,20 @@ open JanetModel.Gen.Sandbox in
 theorem gen_keywords : keywordsCover options defines = true := by decide +kernel
 
 open JanetModel.Gen.Sandbox in
+/-- the translator's summary `mayGrow` is closed: certificate check by kernel evaluation -/
+theorem gen_mayGrow : mayGrowOK mayGrowAt noGrowEdges benignCallees flagWriters = true := by decide +kernel
+
+open JanetModel.Gen.Sandbox in
+/-- ★ a call that the graph has NO node for (defined callee outside the slice, not `havoc`) cannot reach a store to the flag
+    word through the call edges of the program -/
+theorem benign_calls_keep_flags (g w : Nat) (hg : g ∈ benignCallees) (hp : CallPath noGrowEdges g w) : w ∉ flagWriters :=
+  Sound.benign_never_writes gen_mayGrow hg hp
+
+open JanetModel.Gen.Sandbox in
+/-- non-vacuity: there are such callees and the decision tree agrees with the id list on the writers -/
+example : benignCallees.length > 50 ∧ flagWriters.all (fun w => mayGrowIds.contains w) = true := by decide +kernel
+
+open JanetModel.Gen.Sandbox in
 /-- the regenerated shape of thread start is `SysOp.spawn` (child's word := parent's word, at every hand-over site) -/
 theorem gen_threadStart : threadStartOK threadStart = true := by decide +kernel
 
